@@ -14,14 +14,16 @@ pub fn kind(v: i128) -> &'static str {
 }
 
 pub fn diffclass(got: i128, want: i128) -> String {
-    let d = got - want;
-    if d.abs() <= 3 {
+    // total on all of i128 x i128: model bounds of the float checks can lie near the i128 extremes
+    let d = got.saturating_sub(want);
+    let ad = d.unsigned_abs();
+    if ad <= 3 {
         format!("{d:+}ns")
-    } else if d % NPC == 0 && (d / NPC).abs() <= 2 {
+    } else if d % NPC == 0 && ad / NPC as u128 <= 2 {
         format!("{:+}c", d / NPC)
-    } else if d.abs() < NS_S {
+    } else if ad < NS_S as u128 {
         "sub-second".into()
-    } else if d.abs() < NPC {
+    } else if ad < NPC as u128 {
         "sub-century".into()
     } else {
         "large".into()
